@@ -388,6 +388,24 @@ func heightKey(h uint64) []byte {
 func runC02(r *mon.Run, replay string) {
 	r.Rule("random fork trees with every element-changing transaction kind and body-invalid forks, driven through PRNG schedules on node A; at PRNG-chosen points and at the end a fresh node B is fed A's best chain one block at a time and the complete served views (tip state, index, stored blocks with supplements, element buckets incl. expiration lists, served elements with Merkle proofs, storage-proof window ids, next block's expiring contracts) are compared byte for byte; B is also compared with the pure ledger; plus checkpoint-initialised stores and the dedicated expiration-order scenario; a history is non-trivial when it contains at least one reorg, distinct by (regime, stream, reorgs, rollbacks, depth)")
 	r.Assume("Tree-bucket nodes beyond the current leaf count are never read (the served proofs are compared instead)")
+	if st, ok := replayStream(replay); ok {
+		switch {
+		case st >= 810000:
+			runC02SharedEnds(r, st)
+		case st >= 800000:
+			runC02Order(r, st)
+		case st >= 700000:
+			runC02Checkpoint(r, st)
+		default:
+			i := int(st - 2000)
+			sz := 30
+			if r.Thorough() && i%25 == 0 {
+				sz = 150
+			}
+			runC02Tree(r, st, regimes[i%3], sz)
+		}
+		return
+	}
 	n := r.Pick(150, 2500)
 	parallel(n, func(i int) {
 		sz := 30
